@@ -47,6 +47,9 @@ class StringDiscretizer(BaseDiscretizer):
 
     @extend_docstring(BaseDiscretizer.fit)
     def fit(self, X: DataFrame, y: Series = None) -> None:  # pylint: disable=W0222
+        # checking for previous fits (before any modification of the fitted state)
+        self._check_not_fitted()
+
         if self.verbose:  # verbose if requested
             print(f" - [StringDiscretizer] Fit {str(self.features)}")
 
